@@ -3,7 +3,7 @@ level Forwarder.OldestFirst (C02) and HybridBuffer.Fifo (C03), AgentTrace.tla or
 DESIGN.md section 5.5."""
 import json, random
 from lib import vlib
-from checks import agcommon as A, c01
+from checks import agcommon as A, c01, c02, c03, fwdcommon as F, hbcommon as H
 
 FLAGS = ("P05",)
 
@@ -30,6 +30,23 @@ def run(chk):
     scripts = A.stories() + order_scripts(rnd, 700 if thorough else 26)
     n, ev, rej, consts = A.run_scripts(chk, scripts, FLAGS, "c05")
     A.handle(chk, rej, FLAGS, "c05", consts)
+    # component level: the buffer hands chunks on in arrival order (HybridBuffer Fifo / hand-back rules) and the client never
+    # skips an older undelivered chunk (Forwarder OldestFirst) - on real runs of both components
+    hb_n = fw_n = 0
+    for gi, group in enumerate(H.GROUPS):
+        behs = chk.tlc_simulate("HybridBuffer", "HybridBuffer_sim_%s.cfg" % group, 800 if thorough else 60, 160, chk.seed + 100 + gi)
+        hs = [H.script_from_behaviour(b, "%s-o-sim%d" % (group, i), rnd, group) for i, b in enumerate(behs)]
+        hs += [H.random_script("%s-o-rnd%d" % (group, i), rnd, group) for i in range(400 if thorough else 40)]
+        n2, e2, rej2, k2, st2, hung = H.run_scripts(chk, hs, group, "c05" + group)
+        c03.handle_rejections(chk, rej2, group, chk.cov)
+        hb_n += n2
+    fbehs = chk.tlc_simulate("Forwarder", "Forwarder_sim_inorder.cfg", 400 if thorough else 40, 150, chk.seed + 7)
+    fs = [F.script_from_behaviour(b, "o-sim%d" % i, rnd, inorder=True) for i, b in enumerate(fbehs)] + [F.random_script("o-rnd%d" % i, rnd, inorder=True) for i in range(300 if thorough else 30)]
+    n1, e1, rej1, kinds, stop_ms, st1 = F.run_scripts(chk, fs, 2, "c05f", inorder=True)
+    c02.handle_rejections(chk, rej1, 2, True, chk.cov)
+    fw_n = n1
+    chk.cov["component_level"] = {"hybridbuffer_traces": hb_n, "forwarder_traces": fw_n}
+    n += hb_n + fw_n
     chk.cov.update({"traces_validated_against_impl": n, "trace_events": ev, "evaluations": n,
                     "distinct_nontrivial": len({json.dumps(s["gens"], sort_keys=True) for s in scripts}),
                     "rule": "six fault stories + seeded histories with 2-3 client connections, 1-3 key sets, pauses around the 30 ms tick flush, a 2-4 chunk memory window (forced spills), resets / silent / late upstream connections (retransmissions) and 1-3 generations; the observer checks per (generation, connection, key) that first deliveries are in sent order and per upstream connection that no older un-ACKed chunk of a pipeline is skipped",
